@@ -10,6 +10,7 @@
 import MofunModel.Proofs.FindSoundLemmas
 import MofunModel.Proofs.RotLemmas
 import MofunModel.Proofs.FindSoundDistinct
+import MofunModel.Proofs.FindSoundWrapped
 
 namespace Mofun
 
@@ -115,16 +116,15 @@ def imageOf (inp : FindInput) (ax1 : Nat) (q : Quat) (t : Vec3) (k : Nat) : Vec3
   Vec3.add (rot q (Vec3.sub (inp.ppos.getD k Vec3.zero) (inp.ppos.getD ax1 Vec3.zero))) t
 
 /-- **find_rigid.** With `R = rot m.q`, `o = P[ax1]`, `t = m.pos[ax1]`: every returned position coincides with
-    `R (P[k] − o) + t`, coordinate by coordinate, within `atol + 10⁻⁵·|coordinate|` — the exact form of `np.allclose`
-    (the `rtol` term is the code's; it is ≤ 10⁻³ Å for coordinates up to 100 Å). No guard. -/
+    `R (P[k] − o) + t`, coordinate by coordinate, within `atol` — the requested absolute tolerance and nothing else
+    (`np.allclose(…, rtol=0, atol=atol)`). "Within the tolerance" is read PER COORDINATE, as `np.allclose` does
+    (an atom may be up to `√3·atol` away in Euclidean distance). No guard. -/
 theorem find_rigid (inp : FindInput) (ax1 : Nat) (oracle : Nat → Nat → Quat) (choose : Nat → List Nat → Nat)
     (m : Match) (hm : m ∈ find inp ax1 oracle choose) :
     ∀ k, k < inp.ppos.length →
       let img := imageOf inp ax1 m.q (m.pos.getD ax1 Vec3.zero) k
       let p := m.pos.getD k Vec3.zero
-      absRat (p.x - img.x) ≤ inp.atol + absRat img.x / 100000 ∧
-      absRat (p.y - img.y) ≤ inp.atol + absRat img.y / 100000 ∧
-      absRat (p.z - img.z) ≤ inp.atol + absRat img.z / 100000 := by
+      absRat (p.x - img.x) ≤ inp.atol ∧ absRat (p.y - img.y) ≤ inp.atol ∧ absRat (p.z - img.z) ≤ inp.atol := by
   have h := find_mem_good inp ax1 oracle choose m hm
   intro k hk
   unfold goodCheck at h
@@ -234,21 +234,19 @@ example : find exInput2 0 (fun _ _ => Quat.identity) (fun _ _ => 0) = [] := by d
 example : 0 < exInput1.ppos.length ∧ exInput1.elems.length = exInput1.pos.length ∧
     exInput1.pelems.length = exInput1.ppos.length ∧ exQuat2.normSq ≠ 0 ∧ Quat.identity.normSq ≠ 0 := by decide +kernel
 
-/-! ### distinct atoms (guards: the property's domain) -/
+/-! ### distinct atoms -/
 
-/-- **find_distinct** (stretch). On the property's domain — every perpendicular cell width at least `W`, `W` larger
-    than the pattern diameter plus twice the tolerance (and the diameter below `(1 − 10⁻⁹)·W`, the relative tolerance of
-    `math.isclose`), pattern atoms pairwise farther apart than `atol` — the atoms of a reported match are DISTINCT. -/
+/-- **find_distinct.** The atoms of a reported match are DISTINCT — for every cell, pattern and tolerance (the extension
+    loop never takes a unit-cell atom twice, whatever its periodic image). Guard: the pattern has at least one atom. -/
 theorem find_distinct (inp : FindInput) (ax1 : Nat) (oracle : Nat → Nat → Quat) (choose : Nat → List Nat → Nat)
-    (W : Rat) (hg : DistinctGuards inp W) (hpp : 0 < inp.ppos.length)
-    (m : Match) (hm : m ∈ find inp ax1 oracle choose) : m.idx.Nodup := by
+    (hpp : 0 < inp.ppos.length) (m : Match) (hm : m ∈ find inp ax1 oracle choose) : m.idx.Nodup := by
   obtain ⟨gi, i, c, hc, -, rfl⟩ := find_witness inp ax1 oracle choose hpp m hm
   have hlen := hc.1
   unfold List.Nodup
   rw [List.pairwise_iff_getElem]
   intro j k hj hk hjk
   simp only [mkMatch, List.length_map] at hj hk
-  have hne := cand_distinct inp W hg c hc k j (by omega) hjk
+  have hne := cand_distinct inp c hc k j (by omega) hjk
   simp only [mkMatch, List.getElem_map]
   have e1 : c.getD j 0 = c[j] := by
     rw [List.getD_eq_getElem?_getD, List.getElem?_eq_getElem hj]; rfl
@@ -256,6 +254,23 @@ theorem find_distinct (inp : FindInput) (ax1 : Nat) (oracle : Nat → Nat → Qu
     rw [List.getD_eq_getElem?_getD, List.getElem?_eq_getElem hk]; rfl
   rw [e1, e2] at hne
   exact hne
+
+/-- the reported atoms are distinct also where the pattern has same-element atoms closer than the tolerance: a structure
+    with ONE hydrogen where the pattern has two (H–H 3/4, atol 4/5) — nothing is reported -/
+def exInput3 : FindInput :=
+  { elems := ["C", "O", "H"], pos := [⟨1, 1, 1⟩, ⟨1, 1, 4⟩, ⟨2, 1, 5 / 2⟩],
+    cell := ⟨⟨8, 0, 0⟩, ⟨0, 8, 0⟩, ⟨0, 0, 9⟩⟩,
+    pelems := ["C", "O", "H", "H"], ppos := [⟨0, 0, 0⟩, ⟨0, 0, 3⟩, ⟨1, 3 / 8, 3 / 2⟩, ⟨1, -3 / 8, 3 / 2⟩], atol := 4 / 5 }
+
+example : find exInput3 0 (fun _ _ => Quat.identity) (fun _ _ => 0) = [] := by decide +kernel
+
+/-- the pair-distance screen alone (what guaranteed distinctness before the explicit test): still true on the domain -/
+theorem find_distinct_by_screen (inp : FindInput) (W : Rat) (hg : DistinctGuards inp W) (c : List Nat)
+    (hc : CandOK inp.ppos inp.pelems inp.atol (fun k => inp.nearPosL.getD k Vec3.zero)
+      (fun k => inp.nearElemL.getD k "") (fun k => inp.nearUcL.getD k 0) inp.near.length inp.ppos.length c)
+    (k j : Nat) (hk : k < inp.ppos.length) (hj : j < k) :
+    inp.near.getD (c.getD j 0) 0 % inp.pos.length ≠ inp.near.getD (c.getD k 0) 0 % inp.pos.length :=
+  cand_distinct_by_screen inp W hg c hc k j hk hj
 
 /-- the guards, as a Boolean test (what a caller can evaluate) -/
 def distinctGuardsB (inp : FindInput) (W : Rat) : Bool :=
@@ -281,5 +296,88 @@ theorem distinctGuardsB_sound (inp : FindInput) (W : Rat) (h : distinctGuardsB i
 /-- non-vacuity of the guards: the 4 × 5 × 6 cell is at least 4 wide, the C–O pattern is 1 long, atol = 1/20 -/
 example : DistinctGuards exInput1 4 := distinctGuardsB_sound _ _ (by decide +kernel)
 example : DistinctGuards exInput2 4 := distinctGuardsB_sound _ _ (by decide +kernel)
+
+/-! ### `find_pattern_in_structure` itself: atoms may be STORED anywhere (`findW = find ∘ wrapped`)
+
+  The search looks at every atom through its image inside the cell (an integer lattice translation). Everything above
+  holds for the matches it reports, with the STORED positions / elements of the structure as reference. -/
+
+/-- **findW_shape.** -/
+theorem findW_shape (inp : FindInput) (ax1 : Nat) (oracle : Nat → Nat → Quat) (choose : Nat → List Nat → Nat)
+    (hpp : 0 < inp.ppos.length) (m : Match) (hm : m ∈ findW inp ax1 oracle choose) :
+    m.idx.length = inp.ppos.length ∧ m.pos.length = inp.ppos.length ∧
+    ∀ k, k < inp.ppos.length →
+      m.idx.getD k 0 < inp.pos.length ∧ inp.elems.getD (m.idx.getD k 0) "" = inp.pelems.getD k "" := by
+  have h := find_shape inp.wrapped ax1 oracle choose hpp m hm
+  rw [wrapped_length] at h
+  exact h
+
+/-- **findW_positions_are_images.** Every returned position is the STORED position of the indexed atom plus an INTEGER
+    lattice vector: `(i, j, l) = (image in {−1,0,1}³) − (whole cells the stored atom is away from the home cell)`.
+    No hypothesis that the atoms are inside the cell, none on the cell. -/
+theorem findW_positions_are_images (inp : FindInput) (ax1 : Nat) (oracle : Nat → Nat → Quat)
+    (choose : Nat → List Nat → Nat) (hpp : 0 < inp.ppos.length) (m : Match) (hm : m ∈ findW inp ax1 oracle choose) :
+    ∀ k, k < inp.ppos.length →
+      ∃ i j l : Int,
+        m.pos.getD k Vec3.zero = Vec3.add (inp.pos.getD (m.idx.getD k 0) Vec3.zero) (inp.cell.lattice i j l) ∧
+        (i + (inp.cell.cellsAway (inp.pos.getD (m.idx.getD k 0) Vec3.zero)).1 ∈ pm1) ∧
+        (j + (inp.cell.cellsAway (inp.pos.getD (m.idx.getD k 0) Vec3.zero)).2.1 ∈ pm1) ∧
+        (l + (inp.cell.cellsAway (inp.pos.getD (m.idx.getD k 0) Vec3.zero)).2.2 ∈ pm1) := by
+  intro k hk
+  obtain ⟨i, j, l, hi, hj, hl, hpos⟩ := find_positions_are_images inp.wrapped ax1 oracle choose hpp m hm k hk
+  have hlt := ((findW_shape inp ax1 oracle choose hpp m hm).2.2 k hk).1
+  rw [wrapped_getD inp _ hlt, intoCell_eq_add] at hpos
+  set s := inp.cell.cellsAway (inp.pos.getD (m.idx.getD k 0) Vec3.zero) with hs
+  refine ⟨i - s.1, j - s.2.1, l - s.2.2, ?_, by simpa using hi, by simpa using hj, by simpa using hl⟩
+  rw [hpos]
+  show Vec3.add (Vec3.add _ (inp.wrapped.cell.lattice _ _ _)) (inp.wrapped.cell.lattice _ _ _) = _
+  have hc : inp.wrapped.cell = inp.cell := rfl
+  rw [hc]
+  simp only [Mat3.lattice, Vec3.add, Vec3.smul, Vec3.mk.injEq]
+  push_cast
+  refine ⟨by ring, by ring, by ring⟩
+
+/-- **findW_rigid.** per coordinate within the requested `atol` of the rotated + translated pattern -/
+theorem findW_rigid (inp : FindInput) (ax1 : Nat) (oracle : Nat → Nat → Quat) (choose : Nat → List Nat → Nat)
+    (m : Match) (hm : m ∈ findW inp ax1 oracle choose) :
+    ∀ k, k < inp.ppos.length →
+      let img := imageOf inp ax1 m.q (m.pos.getD ax1 Vec3.zero) k
+      let p := m.pos.getD k Vec3.zero
+      absRat (p.x - img.x) ≤ inp.atol ∧ absRat (p.y - img.y) ≤ inp.atol ∧ absRat (p.z - img.z) ≤ inp.atol :=
+  find_rigid inp.wrapped ax1 oracle choose m hm
+
+/-- **findW_distinct.** -/
+theorem findW_distinct (inp : FindInput) (ax1 : Nat) (oracle : Nat → Nat → Quat) (choose : Nat → List Nat → Nat)
+    (hpp : 0 < inp.ppos.length) (m : Match) (hm : m ∈ findW inp ax1 oracle choose) : m.idx.Nodup :=
+  find_distinct inp.wrapped ax1 oracle choose hpp m hm
+
+/-- **findW_rotation_proper.** -/
+theorem findW_rotation_proper (inp : FindInput) (ax1 : Nat) (oracle : Nat → Nat → Quat) (choose : Nat → List Nat → Nat)
+    (hq : ∀ g i, (oracle g i).normSq ≠ 0) (m : Match) (hm : m ∈ findW inp ax1 oracle choose) :
+    m.q.normSq ≠ 0 ∧ ProperRotation (rot m.q) :=
+  find_rotation_proper inp.wrapped ax1 oracle choose hq m hm
+
+/-- **findW_no_improper.** -/
+theorem findW_no_improper (inp : FindInput) (ax1 : Nat) (oracle : Nat → Nat → Quat) (choose : Nat → List Nat → Nat)
+    (hq : ∀ g i, (oracle g i).normSq ≠ 0) (cpos : List Vec3)
+    (hno : ¬ ∃ R, ProperRotation R ∧ CarriesOnto inp ax1 R cpos) :
+    ∀ m ∈ findW inp ax1 oracle choose, m.pos ≠ cpos :=
+  find_no_improper inp.wrapped ax1 oracle choose hq cpos hno
+
+/-- **find (wrap S) = find S** (cell of non-zero volume) -/
+theorem findW_wrap_invariant (inp : FindInput) (ax1 : Nat) (oracle : Nat → Nat → Quat) (choose : Nat → List Nat → Nat)
+    (hd : inp.cell.det ≠ 0) : findW inp.wrapped ax1 oracle choose = findW inp ax1 oracle choose :=
+  findW_wrapped inp ax1 oracle choose hd
+
+/-- the C–O pair of `exInput1` with the O stored one cell further along x and the C two cells down along z: the same
+    match, positions of the images inside the cell -/
+def exInput4 : FindInput := { exInput1 with pos := [⟨1, 1, -11⟩, ⟨6, 1, 1⟩, ⟨3, 3, 3⟩] }
+
+example : findW exInput4 0 (fun _ _ => Quat.identity) (fun _ _ => 0) =
+    [{ idx := [0, 1], pos := [⟨1, 1, 1⟩, ⟨2, 1, 1⟩], q := Quat.identity }] := by decide +kernel
+
+example : find exInput4 0 (fun _ _ => Quat.identity) (fun _ _ => 0) = [] := by decide +kernel
+
+example : exInput4.cell.det ≠ 0 := by decide +kernel
 
 end Mofun
